@@ -72,4 +72,20 @@ for kind, nseg, s in itertools.product(('float', 'int', 'bool', 'rescaled'), (1,
         ok = q.amplitude.shape == N and q.opd.shape == N and q.mask.shape[-2:] == N and q.mask.shape[:-2] == p.mask.shape[:-2]
         ok = ok and np.allclose(np.asarray(q.pixelscale) * s, p.pixelscale) and set(np.unique(q.mask).tolist()) <= {0, 1} and q.mask.any()
         b.check(bool(ok), {'mask': kind, 'nseg': nseg, 'scale': s, 'shape': q.amplitude.shape})
-emit([a, b])
+
+c = Bounded('plane.Plane.resample::reflects_the_plane_as_it_is_now', 'resample to the same pixel scale before and after the OPD / amplitude of the plane was replaced; results are separate objects',
+            'the result is computed from the current plane (no dependence on earlier calls), is a new plane every time, and the original keeps its attributes')
+for ps_new in (0.5e-3, 2e-3):
+    with c.case({'resample': ps_new}):
+        p = smooth_plane((32, 32))
+        keys0 = set(vars(p)) if hasattr(p, '__dict__') else None
+        q1 = p.resample(ps_new)
+        p.opd = 3.0 * p.opd + 1e-9 * (p.amplitude > 0)
+        q2 = p.resample(ps_new)
+        fresh = lentil.Pupil(amplitude=p.amplitude, opd=p.opd, mask=p.mask, pixelscale=1e-3, focal_length=5.0).resample(ps_new)
+        ok = q1 is not q2 and q1.opd is not q2.opd and np.allclose(q2.opd, fresh.opd, atol=1e-15) and not np.allclose(q2.opd, q1.opd, atol=1e-12)
+        q2.opd[:] = 0
+        q3 = p.resample(ps_new)
+        ok = ok and np.allclose(q3.opd, fresh.opd, atol=1e-15) and (keys0 is None or set(vars(p)) == keys0)
+        c.check(bool(ok), {'resample': ps_new})
+emit([a, b, c])
